@@ -170,6 +170,15 @@ def gen_profiles(rng, tier):
             h0 = CUM[mth] + 24 * day + hr
             spikes.append([h0, rng.choice([1.0, -1.0]) * spec["scale"] * rng.uniform(1.5, 3.0)])
         ps.append({"months": rng.choice([12, 24, 24, 36, 13, 25, 120 if tier != "quick" else 24, 6, 11, rng.randrange(1, 12)]), "loads": spec, "spikes": spikes})
+    # directed: the rejection peak and the extraction peak of a month on the SAME day (a cold morning and a hot afternoon), well inside the month
+    for k, (mth, day) in enumerate([(2, 10), (7, 19)] if tier == "quick" else [(2, 10), (7, 19), (0, 14), (11, 5), (4, 27)]):
+        spec = {"kind": "balanced", "scale": 12000.0, "seed": rng.randrange(1, 10 ** 6)}
+        h0 = CUM[mth] + 24 * day
+        ps.append({"months": [24, 13, 12, 36, 25][k], "loads": spec, "spikes": [[h0 + 5, 61000.0 + 1000 * k], [h0 + 16, -64000.0 - 1000 * k]]})
+    # directed: a cold snap around the clock over 31 December / 1 January — January's extraction peak on the first day of the horizon with a
+    # duration above 26 h (the pulse would start before hour 0: its start is clamped and the pulse shifted)
+    spec = {"kind": "balanced", "scale": 8000.0, "seed": rng.randrange(1, 10 ** 6)}
+    ps.append({"months": 12 if tier == "quick" else 24, "loads": spec, "spikes": [[h, 52000.0 + 10.0 * (h % 24)] for h in list(range(8736, 8760)) + list(range(0, 24))] + [[11, 53000.0]]})
     # the same profile on boreholes that differ only in their short-time response (grout heat capacity), one after the other in one
     # process: every object's durations are those of ITS OWN response
     for k in range(1 if tier == "quick" else 4):
@@ -293,10 +302,11 @@ def oracle_profile(chk, which, p, o):
                 if arr[m] != arr[(m - 1) % 12 + 1]:
                     chk.violation("hybrid-profile", p, {"array": key, "month": m}, "month m+12 repeats month m")
                     return n
-        # strict monotonicity whenever the reported windows are disjoint and inside the month
-        ok_windows = True
+        # strict monotonicity, month by month, wherever the reported windows of the month are disjoint and inside the month
+        okm = {}
         for m in range(1, months + 1):
             ipf = m < 13 or m > months - 12
+            okm[m] = True
             if not ipf:
                 continue
             fm = ends[m - 1] + 1
@@ -309,20 +319,28 @@ def oracle_profile(chk, which, p, o):
                 nn = fm + 24 * o["daycl"][m] + 12
                 w = [(nn - o["dcl"][m], nn), (nn, nn + o["dhl"][m])]
                 if not (ends[m - 1] < w[0][0] and w[1][1] < ends[m]):
-                    ok_windows = False
+                    okm[m] = False
                 continue
             w.sort()
             for a, b in w:
                 if not (ends[m - 1] < a <= b < ends[m]):        # a window of zero length overlaps nothing
-                    ok_windows = False
+                    okm[m] = False
             if len(w) == 2 and not (w[0][1] < w[1][0]):
-                ok_windows = False
-        if ok_windows:
-            n += 1
-            for k in range(2, len(hour)):
-                if not hour[k] > hour[k - 1]:
-                    chk.violation("hybrid-profile", p, {"k": k, "hours": hour[max(0, k - 3):k + 2]}, "breakpoints strictly increasing (windows are disjoint and inside their months)")
-                    return n
+                okm[m] = False
+        pos = 1
+        for m in range(1, months + 1):
+            cand = [k for k in range(pos, len(hour)) if hour[k] == ends[m]]
+            if not cand:
+                break
+            b = cand[-1]
+            if okm[m]:
+                n += 1
+                for k in range(pos + 1, b + 1):
+                    if not hour[k] > hour[k - 1]:
+                        chk.violation("hybrid-profile", p, {"month": m, "k": k, "hours": hour[max(0, k - 3):k + 2], "peak_days": [o["daycl"][m], o["dayhl"][m]], "durations_h": [o["dcl"][m], o["dhl"][m]]},
+                                      "breakpoints strictly increasing (the windows of this month are disjoint and inside the month)")
+                        return n
+            pos = b
     elif which == "C07":
         # every reported duration against its defining equation (first year: later years replicate, C08)
         if "kernel" in o:
@@ -385,6 +403,10 @@ def oracle_profile(chk, which, p, o):
                         return n
                     if sameday and abs((s[2] if sgn > 0 else s[1]) - noon) > 1e-6:
                         chk.violation("hybrid-profile", p, {"month": m, "pulse": s, "noon": noon, "dir": nm}, "same-day pulses abut noon")
+                        return n
+                    if sameday and noon - dur >= 0 and abs((s[2] - s[1]) - dur) > 1e-6:
+                        chk.violation("hybrid-profile", p, {"month": m, "pulse": s, "noon": noon, "duration": dur, "dir": nm},
+                                      "same-day pulses abut noon, each with its own reported duration (rejection ends at noon, extraction starts there)")
                         return n
             want = 1 + (2 if pr > 0 else 0) + (2 if pe > 0 else 0) - (1 if (pr > 0 and pe > 0 and dr == de) else 0)
             if len(segs) != want:
